@@ -534,7 +534,7 @@ func Execute(s *Schedule, opt ExecOpts) (res *RunResult) {
 	if opt.Lin {
 		e.linCheck()
 	}
-	if s.Cfg.Profile == "genesis" && !res.Stats.Halted && res.HarnessErr == "" {
+	if (s.Cfg.Profile == "genesis" || s.Cfg.Profile == "town") && !res.Stats.Halted && res.HarnessErr == "" {
 		e.finalExportValidate(len(s.Blocks) - 1)
 	}
 	if opt.collectFrames {
